@@ -149,13 +149,21 @@ def verdict(prop, cfg, tier, seed, pr, results, runner, drv, t0, vp):
         if r.get("release_differs"):
             divs.append(dict(hid="?", step=0, expected="release-profile trace identical to debug-profile trace",
                              actual="traces differ (overflow / debug_assert dependent behaviour)", dir=d))
-        nh, no, dv = vp.compare_traces(os.path.join(d, "model"), os.path.join(d, "impl"), levels)
+        if "divergences" in r:
+            # the runner compared (and compacted) the shard's traces itself
+            nh, no, dv = r.get("n_hist", 0), r.get("n_obs", 0), list(r["divergences"])
+            pre_nontriv = r.get("nontrivial", 0)
+        else:
+            nh, no, dv = vp.compare_traces(os.path.join(d, "model"), os.path.join(d, "impl"), levels)
+            pre_nontriv = None
         n_hist += nh
         n_obs += no
         for x in dv:
             x["dir"] = d
         divs += dv
-        if hasattr(runner, "nontrivial_stats"):
+        if pre_nontriv is not None:
+            nontriv += pre_nontriv
+        elif hasattr(runner, "nontrivial_stats"):
             nontriv += runner.nontrivial_stats(os.path.join(d, "impl"))
         else:
             nontriv += vp.nontrivial_stats(os.path.join(d, "impl"), cfg["target"])
